@@ -104,6 +104,7 @@ class _Equiv(Contract):
 class _Refusal(_Equiv):
     """arbitrary dimensions: InvalidUnitEquivalence exactly when the pair is not covered"""
     may_raise = ()
+    expect_return = False
 
     def formals(self, it):
         x = N.make_unyt_array(it, "x")
